@@ -1,0 +1,28 @@
+//go:build verif
+
+// Package verifhook marks instants of multi-step operations for the verification harness.
+package verifhook
+
+import "sync"
+
+var (
+	mu      sync.RWMutex
+	handler func(name string)
+)
+
+// SetHandler installs the callback invoked at every marked instant (nil removes it)
+func SetHandler(h func(name string)) {
+	mu.Lock()
+	defer mu.Unlock()
+	handler = h
+}
+
+// Hit marks that the named instant has been reached
+func Hit(name string) {
+	mu.RLock()
+	h := handler
+	mu.RUnlock()
+	if h != nil {
+		h(name)
+	}
+}
